@@ -251,8 +251,12 @@ func examineSnaps(
 				obsoleteTests = append(obsoleteTests, testID)
 				hasDiffs = true
 
-				removeSnapshot(s)
-				continue
+				// an obsolete snapshot is dropped only when removal was asked for; otherwise it is kept so that
+				// a rewrite of the file for sorting does not delete it
+				if update {
+					removeSnapshot(s)
+					continue
+				}
 			}
 
 			for s.Scan() {
